@@ -33,6 +33,13 @@ Proof. apply index_of_in. Qed.
 Lemma comp_eq_dec (a b : comp) : {a = b} + {a <> b}.
 Proof. decide equality; apply Nat.eq_dec. Qed.
 
+Lemma in_indexed_nth' {A} (l : list A) : forall n k a, In (k, a) (indexed n l) -> n <= k /\ nth_error l (k - n) = Some a.
+Proof.
+  induction l as [|h r IH]; intros n k a H; simpl in H; [destruct H|].
+  destruct H as [E|H]; [inversion E; subst; split; [lia|rewrite Nat.sub_diag; reflexivity]|].
+  destruct (IH _ _ _ H) as [A1 A2]. split; [lia|]. replace (k - n) with (S (k - S n)) by lia. exact A2.
+Qed.
+
 Definition wkind (tr : transition) : Prop := tr_new tr = NT TWaiting \/ tr_new tr = NT TTransit.
 
 Section PB.
@@ -892,6 +899,39 @@ Proof.
   intros C W Fr D H Hout. destruct (run_reachable _ _ _ _ _ _ C W Fr D H) as [_ [_ Hod]].
   unfold all_in_output in Hout. rewrite forallb_forall in *.
   intros jb Hin. specialize (Hout jb Hin). apply andb_true_iff in Hout. tauto.
+Qed.
+
+(* the TimeDependency invariant as a boolean clause (evaluated on every implementation state by the monitors) *)
+Lemma DEPI_depi_b x : WFS i x -> DEPI x -> depi_b i x = true.
+Proof.
+  intros W D. unfold depi_b. apply forallb_forall. intros [t ts] Hin. simpl.
+  apply in_indexed_nth' in Hin. destruct Hin as [_ Hts]. rewrite Nat.sub_0_r in Hts.
+  destruct (t_occ ts) as [|z|b k d] eqn:Eo; try reflexivity.
+  pose proof (tc_of _ _ _ Hts) as Htc. rewrite Eo in Htc.
+  destruct (D _ _ _ _ _ _ Htc) as [Est [j [m [ms [mc [Ej [Eb [Hms [Hmc [Hcd [Hjd [Hk R]]]]]]]]]]]].
+  rewrite Est, Ej, Eb, Hms, Hmc, Hcd, Hjd. simpl. rewrite !Nat.eqb_refl. simpl.
+  assert (Hw : wkind_b d = true) by (unfold wkind_b; destruct Hk as [-> | ->]; reflexivity). rewrite Hw. simpl.
+  apply rel_ok_rel_ok_b; auto. apply (ws_nodup x (BPost m) (m_post ms) W). simpl. rewrite Hms. reflexivity.
+Qed.
+
+Theorem run_depi fuel x0 joker0 ta r m :
+  clock_b x0 = true -> wfs_b i x0 = true -> fresh2_b i x0 = true -> nodep_b x0 = true ->
+  reach sigma i fuel x0 joker0 ta r m -> depi_b i (r_x r) = true.
+Proof.
+  intros C W Fr D H. apply NO_iff_clock_b in C.
+  destruct (reach_J _ _ _ _ _ _ C (J_init _ W Fr D) (BI_init _ D) H) as [xq [Nq [[Wq [_ Dq]] [E|[_ [z E]]]]]]; rewrite E.
+  - apply DEPI_depi_b; auto.
+  - exact (DEPI_depi_b _ Wq Dq).
+Qed.
+
+Theorem run_micro_depi fuel x0 joker0 ta r m a r' m' lg :
+  clock_b x0 = true -> wfs_b i x0 = true -> fresh2_b i x0 = true -> nodep_b x0 = true ->
+  reach sigma i fuel x0 joker0 ta r m -> mw_step sigma i fuel r m a = MOk r' m' lg ->
+  forall tr y, In (tr, y) lg -> depi_b i y = true.
+Proof.
+  intros C W Fr D H Hm tr y Hin. apply NO_iff_clock_b in C.
+  destruct (reach_micro_side2 _ _ _ _ _ _ _ _ _ _ C (J_init _ W Fr D) (BI_init _ D) H Hm _ _ Hin) as [[Wy [_ Dy]] _].
+  apply DEPI_depi_b; auto.
 Qed.
 
 (* ---------- instances whose machine post-buffers are unordered or of capacity one: no TimeDependency at all ---------- *)
